@@ -92,6 +92,10 @@ structure Env where
   sq : Term → Term → Option (List Sol) := fun _ _ => none
   /-- template descriptor of the query text of a constraint node -/
   sqInfo : Term → Option SparqlTemplate := fun _ => none
+  /-- the SPARQL-based constraint components declared by the shapes graph (harvested lazily by the code) -/
+  components : Except Failure (List Component) := .ok []
+  /-- opaque SPARQL engine for validators: validator, shape, focus, value ↦ ASK answer / SELECT rows -/
+  va : Term → Term → Term → Term → Option ValidatorAnswer := fun _ _ _ _ => none
 
 structure Ctx extends Env where
   o : Opts
@@ -410,6 +414,28 @@ def evalConstraint (c : Env) (rec : Rec) (s : Shape) (k : CKind) (fv : FV) (path
       | _ => .error .constraintLoad
   | .expression => .error (.raw "model:expression-not-in-this-op")
 
+/-- one applicable SPARQL-based constraint component on shape `s` (`make_validator_for_shape` + `evaluate`) -/
+def evalComponent (c : Env) (s : Shape) (comp : Component) (fv : FV) : Out :=
+  match chooseValidator c.sg comp s.isProp with
+  | .error e => .error e
+  | .ok (v, kind) =>
+    let valMsgs := dedup (c.sg.objects v shMessage)
+    if valMsgs.any (fun m => match m with | .lit l => !isStrVal l | _ => true) then .error .constraintLoad else
+    let paramMap : List (String × Term) := comp.params.filterMap fun p =>
+      (dedup (c.sg.objects s.node p.path)).head?.map fun x => (p.name, x)
+    if comp.params.any (fun p => p.name ∈ ["this", "shapesGraph", "currentShape", "path", "PATH", "value"]) then .error (.runtime "") else
+    foldOut fv fun (f, vs) =>
+      if kind = .ask ∧ vs = [] then .ok (true, []) else
+      match c.sqInfo v with
+      | none => .error (.raw "sparql-template-miss")
+      | some t =>
+        if checkInvalid t (["this", "shapesGraph", "currentShape"] ++ (if kind = .ask then ["value"] else []) ++ paramMap.map (·.1)) then .error .validationFailure else
+        if t.usesPath ∧ !s.isProp then .error (.runtime "") else
+        if t.usesShapesGraph then .error .notImplemented else
+        match componentResults s comp kind valMsgs paramMap f vs (c.va v s.node f) with
+        | .error e => .error e
+        | .ok rs => ofResults rs
+
 /-- components of a shape in the order their parameters are met, each once -/
 def shapeComponents (sg : Graph) (node : Term) (advanced : Bool) : List CKind :=
   let ks := (sg.predicateObjects node).filterMap fun (p, _) =>
@@ -462,7 +488,16 @@ def validateCore (c : Ctx) (rec' : Rec) (s : Shape) (focusList : List Term)
     match loopE abort (constraintFails c.o topLevel)
         (fun k => evalConstraint c.toEnv rec' s k fv (path1 ++ [.constr k s.node])) comps with
     | .error e => .error e
-    | .ok (nonConf, rs) => .ok (!nonConf, rs)
+    | .ok (nonConf, rs) =>
+      -- `find_custom_constraints()` is called even when the loop above stopped early
+      match c.components with
+      | .error e => .error e
+      | .ok allComps =>
+        if nonConf && abort then .ok (!nonConf, rs) else
+        match loopE abort (constraintFails c.o topLevel)
+            (fun comp => evalComponent c.toEnv s comp fv) (applicableComponents c.sg allComps s.node) with
+        | .error e => .error e
+        | .ok (nonConf2, rs2) => .ok (!(nonConf || nonConf2), rs ++ rs2)
 
 /-- the body of `Shape.validate(executor, g, focus, _evaluation_path)`; `rec'` performs the nested
     `other_shape.validate(...)` calls.  `path = none` ⇔ `_evaluation_path is None` (top-level call). -/
@@ -492,14 +527,15 @@ def validateAll (c : Ctx) (shapes : List Shape) (focus : Option (List Term)) : O
 /-- `validate()` on prepared graphs: shapes harvest, then `Validator.run`'s loop.
     `focus` / `useShapes` are the expanded `focus_nodes` / `use_shapes` options ([] = not given). -/
 def runValidate (o : Opts) (sg dg : Graph) (rx : Regex) (focus useShapes : List Term)
-    (sq : Term → Term → Option (List Sol) := fun _ _ => none) (sqInfo : Term → Option SparqlTemplate := fun _ => none) : Out :=
+    (sq : Term → Term → Option (List Sol) := fun _ _ => none) (sqInfo : Term → Option SparqlTemplate := fun _ => none)
+    (va : Term → Term → Term → Term → Option ValidatorAnswer := fun _ _ _ _ => none) : Out :=
   match useShapes with
   | [] =>
     match buildShapes sg with
     | .error e => .error e
     | .ok shapes =>
       let o' := { o with focusNodes := if focus = [] then none else some focus }
-      validateAll ⟨⟨sg, dg, shapes, rx, sq, sqInfo⟩, o'⟩ shapes none
+      validateAll ⟨⟨sg, dg, shapes, rx, sq, sqInfo, findComponents sg, va⟩, o'⟩ shapes none
   | _ =>
     match buildShapesFromList sg useShapes with
     | .error e => .error e
@@ -509,7 +545,7 @@ def runValidate (o : Opts) (sg dg : Graph) (rx : Regex) (focus useShapes : List 
           | none => .error (Failure.raw "KeyError")) useShapes with
       | .error e => .error e
       | .ok selected =>
-        if focus = [] then validateAll ⟨⟨sg, dg, shapes, rx, sq, sqInfo⟩, o⟩ selected none
-        else validateAll ⟨⟨sg, dg, shapes, rx, sq, sqInfo⟩, o⟩ selected (some focus)
+        if focus = [] then validateAll ⟨⟨sg, dg, shapes, rx, sq, sqInfo, findComponents sg, va⟩, o⟩ selected none
+        else validateAll ⟨⟨sg, dg, shapes, rx, sq, sqInfo, findComponents sg, va⟩, o⟩ selected (some focus)
 
 end Pyshacl
